@@ -24,14 +24,15 @@ pub fn def() -> PropDef {
     PropDef {
         id: "C04",
         level: "model_checking",
-        rule: "explicit-state search over N real replicas of one document: events W(r,op,ts) local insert/delete at replica r with the clock pinned to any of three timestamps (every skew, including clocks stepping back), G(e,r) delivery of any previously written entry to any replica through the remote-insert path (subsumes drop, duplication, reordering of the broadcast), S(i,j,k) the first k messages of a reconciliation session i->j and then abort (k = all: complete), R(r) close and reopen replica r's store from its file; on every newly discovered state a closing phase is run for every spanning tree of the N replicas and for the complete graph: complete sessions along the edges until a full pass transfers nothing; invariants: every replica holds only entries some replica wrote (full equality incl. signatures), a session or delivery only moves a replica upward in the merge order, closing terminates within N passes and leaves every replica equal to the merge of all accepted local writes; canonical state = (written set, dump of every replica, kind of transaction every replica's store holds); no observation is made inside a history (the state before its last event comes from a separate replay); non-trivial = states in which at least two replicas differ before closing",
+        rule: "explicit-state search over N real replicas of one document: events W(r,op,ts) local insert/delete at replica r with the clock pinned to any of three timestamps (every skew, including clocks stepping back), G(e,r) delivery of any previously written entry to any replica through the remote-insert path (subsumes drop, duplication, reordering of the broadcast), S(i,j,k) the first k messages of a reconciliation session i->j and then abort (k = all: complete), R(r) close and reopen replica r's store from its file; on every newly discovered state a closing phase is run for every spanning tree of the N replicas and for the complete graph: complete sessions along the edges until a full pass transfers nothing; invariants: every replica holds only entries some replica wrote (full equality incl. signatures), a session or delivery only moves a replica upward in the merge order, closing terminates within N passes and leaves every replica equal to the merge of all accepted local writes; canonical state = (written set, dump of every replica, kind of transaction every replica's store holds); no observation is made inside a history (the state before its last event comes from a separate replay); non-trivial = states in which at least two replicas differ before closing; family H: three replicas held open by store actors for the whole history (writes and complete sessions through SyncHandle), closing along 4 topologies; family L: 2 and 3 real nodes in one process (Docs engine with live actor and gossip receive loop, Router, QUIC endpoints on loopback), every history of writes, prefix deletions, join (start_sync), leave, and waiting points, with clocks increasing and stepping back; the network schedule inside a history is the real one (one execution per history); closing phase = sessions asked of the engines (start_sync naming the neighbour) along the star around node 0, counted only when the engine reports a successful session that started after the request, repeated until a full pass transfers nothing, then every node must hold the merge of all accepted local writes and nothing nobody wrote; a history for which no successful session can be obtained is counted as premise-not-met and is not a verdict",
         assumptions: &[
             "iroh-gossip is abstracted as unreliable broadcast (drop / duplicate / reorder); its own delivery guarantees are not checked",
             "replicas 0 and 2 share an author, replica 1 uses a second one",
+            "family L: the order of network events inside a history is not controlled (real gossip and QUIC on loopback); exhaustive over histories, one schedule each",
         ],
         bound: |t| match t {
-            Tier::Quick => json!({"N=2": "depth <= 3", "N=3": "depth <= 2", "ops": ["ins a", "ins ab", "ins ''", "del a"], "timestamps": 3}),
-            Tier::Thorough => json!({"N=2": "depth <= 5", "N=3": "depth <= 3", "N=4": "depth <= 3 (ops ins ab, del a)", "N=5": "depth <= 2 (ops ins ab, del a)"}),
+            Tier::Quick => json!({"N=2": "depth <= 3", "N=3": "depth <= 2", "ops": ["ins a", "ins ab", "ins ''", "del a"], "timestamps": 3, "family H": "histories <= 3 (+ depth 4 with exactly two writes)", "family L (real nodes)": "2 nodes: histories <= 3 over 9 events; 3 nodes: histories <= 2 over 12 events; x 2 clock directions"}),
+            Tier::Thorough => json!({"N=2": "depth <= 5", "N=3": "depth <= 3", "N=4": "depth <= 3 (ops ins ab, del a)", "N=5": "depth <= 2 (ops ins ab, del a)", "family H": "histories <= 4 (+ depth 5 with exactly two writes)", "family L (real nodes)": "2 nodes: histories <= 4 over 9 events; 3 nodes: histories <= 3 over 12 events; x 2 clock directions"}),
         },
         run,
         replay,
@@ -622,6 +623,7 @@ fn run_actor_swarm(ctx: &Ctx, report: &mut Report) {
 fn run(ctx: &Ctx, report: &mut Report) {
     crate::util::silence_panics();
     run_actor_swarm(ctx, report);
+    super::live::run_live_family(ctx, report);
     let all = [Op::InsA, Op::InsAb, Op::InsRoot, Op::DelA];
     let two_ops = [Op::InsAb, Op::DelA];
     if ctx.quick() {
@@ -636,6 +638,9 @@ fn run(ctx: &Ctx, report: &mut Report) {
 }
 
 fn replay(case: &Value) -> anyhow::Result<(bool, String)> {
+    if let Some(r) = super::live::replay_live(case)? {
+        return Ok(r);
+    }
     if let Some(c) = case.get("actor_held") {
         let hist: Vec<HEv> = serde_json::from_value(c["hist"].clone())?;
         let topo: Vec<(u8, u8)> = serde_json::from_value(c["topology"].clone())?;
